@@ -84,6 +84,11 @@ func checkC04(c *Ctx) {
 			}
 			c.guard(p, "C04.strict", "hint rejected unless "+t.name, uh, GuardSpec{BinAssumes: []BinAssume{binDesc(uh, t.name, t.re, latTrue)}, ThroughBin: true})
 		}
+		// FIPS 204 Alg. 8 / sigDecode refuse for: the length, ‖z‖∞ ≥ γ1−β, a malformed hint, c̃ ≠ c̃' - nothing else
+		c.rejectReasonsRule(p, "C04.strict", reasonSpec{pkg: ip, name: "Verify", why: "FIPS 204 Alg. 8",
+			callees: []string{"(*" + ip + ".unpackedSignature).Unpack"}})
+		c.rejectReasonsRule(p, "C04.strict", reasonSpec{pkg: ip, typ: "unpackedSignature", name: "Unpack", why: "FIPS 204 sigDecode and the norm check of Alg. 8",
+			callees: []string{"(*" + ip + ".VecL).Exceeds", "(*" + ip + ".VecK).UnpackHint"}})
 		vf := p.Func(ip, "", "Verify")
 		c.guard(p, "C04.strict", "accepted only if the recomputed c̃ equals the transmitted one", vf, GuardSpec{BinAssumes: []BinAssume{{Name: "c == c'", Match: arrayCmpIn(ip + ".Verify"), Val: latFalse}}})
 		c.guard(p, "C04.strict", "accepted only if the signature unpacks", vf, GuardSpec{Assumes: []Assume{calleeAssume(latFalse, -1, "(*"+ip+".unpackedSignature).Unpack")}})
@@ -121,6 +126,7 @@ func init() {
 		}
 		c.Clauses = append(c.Clauses, "C04.sample: the scalar uniform sampler stores a 23-bit candidate equal to q-1 and does not store one equal to q (boundary of the rejection test, decided by constant propagation)")
 		for _, pk := range []string{"sign/dilithium/mode2", "sign/dilithium/mode3", "sign/dilithium/mode5", "sign/mldsa/mldsa44", "sign/mldsa/mldsa65", "sign/mldsa/mldsa87"} {
+			c04ExpandA(c, p, pk+"/internal")
 			f := p.Func(pk+"/internal", "", "PolyDeriveUniform")
 			// the sampling loop is a closure over p, i and buf
 			outer := f
@@ -311,5 +317,108 @@ func init() {
 			c.transcriptRule(p, "C04.domsep", "signing absorbs tr, then key ‖ rnd ‖ μ", p.Func(ip, "", "SignTo"), nil, sw, 1, []string{"param#0.tr", "param#0.key", "param#2", "local:[64]byte", "…"})
 			c.transcriptRule(p, "C04.domsep", "verification absorbs tr, then μ ‖ w1", p.Func(ip, "", "Verify"), nil, sw, 1, []string{"param#0.tr", "local:[64]byte", "…"})
 		}
+	}
+}
+
+// c04ExpandA: FIPS 204 Alg. 32 samples A[r][s] from rho ‖ IntegerToBytes(s,1) ‖ IntegerToBytes(r,1), i.e. with
+// the 16-bit little-endian nonce 256·r + s. In both arms of Mat.Derive (one polynomial at a time, four at a
+// time) the nonce paired with the element &m[a][b] has a as its high and b as its low byte.
+func c04ExpandA(c *Ctx, p *Program, ip string) {
+	f := p.Func(ip, "Mat", "Derive")
+	construct := "(*" + ip + ".Mat).Derive: the element m[r][s] is sampled with the nonce 256·r + s in both arms"
+	if f == nil {
+		c.undecided("C04.sample", construct, "anchor function does not resolve", "")
+		return
+	}
+	strip := func(v ssa.Value) ssa.Value {
+		for {
+			switch x := v.(type) {
+			case *ssa.Convert:
+				v = x.X
+			case *ssa.ChangeType:
+				v = x.X
+			default:
+				return v
+			}
+		}
+	}
+	elem := func(v ssa.Value) (ssa.Value, ssa.Value, bool) {
+		in, ok := v.(*ssa.IndexAddr)
+		if !ok {
+			return nil, nil, false
+		}
+		out, ok := in.X.(*ssa.IndexAddr)
+		if !ok || out.X != ssa.Value(f.Params[0]) {
+			return nil, nil, false
+		}
+		return strip(out.Index), strip(in.Index), true
+	}
+	nonce := func(v ssa.Value) (ssa.Value, ssa.Value, bool) {
+		b, ok := strip(v).(*ssa.BinOp)
+		if !ok || (b.Op != token.ADD && b.Op != token.OR) {
+			return nil, nil, false
+		}
+		for _, pr := range [][2]ssa.Value{{b.X, b.Y}, {b.Y, b.X}} {
+			sh, ok := strip(pr[0]).(*ssa.BinOp)
+			if !ok {
+				continue
+			}
+			k, isK := sh.Y.(*ssa.Const)
+			if !isK || k.Value == nil {
+				continue
+			}
+			if (sh.Op == token.SHL && k.Value.ExactString() == "8") || (sh.Op == token.MUL && k.Value.ExactString() == "256") {
+				return strip(sh.X), strip(pr[1]), true
+			}
+		}
+		return nil, nil, false
+	}
+	var bad []string
+	n := 0
+	check := func(a, b ssa.Value, nv ssa.Value, pos token.Pos) {
+		n++
+		hi, lo, ok := nonce(nv)
+		switch {
+		case !ok:
+			bad = append(bad, fmt.Sprintf("%s: the nonce %s is not of the form 256·row + column", p.pos(pos), descVal(nv)))
+		case hi != a || lo != b:
+			bad = append(bad, fmt.Sprintf("%s: m[%s][%s] is sampled with the nonce 256·%s + %s", p.pos(pos), descVal(a), descVal(b), descVal(hi), descVal(lo)))
+		}
+	}
+	for _, b := range f.Blocks {
+		var lastA, lastB, lastN ssa.Value
+		var posN token.Pos
+		for _, in := range b.Instrs {
+			switch x := in.(type) {
+			case *ssa.Call:
+				if normName(p.staticCalleeName(&x.Call)) == ip+".PolyDeriveUniform" && len(x.Call.Args) == 3 {
+					if a, bb, ok := elem(x.Call.Args[0]); ok {
+						check(a, bb, x.Call.Args[2], x.Pos())
+					} else {
+						bad = append(bad, p.pos(x.Pos())+": the destination is not an element of the matrix")
+					}
+				}
+			case *ssa.Store:
+				if a, bb, ok := elem(x.Val); ok {
+					lastA, lastB = a, bb
+				} else if ia, ok := x.Addr.(*ssa.IndexAddr); ok {
+					if al, ok := ia.X.(*ssa.Alloc); ok && strings.Contains(al.Type().String(), "uint16") {
+						lastN, posN = x.Val, x.Pos()
+					}
+				}
+				if lastA != nil && lastN != nil {
+					check(lastA, lastB, lastN, posN)
+					lastA, lastB, lastN = nil, nil, nil
+				}
+			}
+		}
+	}
+	switch {
+	case n < 2:
+		c.undecided("C04.sample", construct, fmt.Sprintf("only %d (element, nonce) pairs recognised (expected one per arm)", n), p.fnPos(f))
+	case len(bad) > 0:
+		c.bad("C04.sample", construct, strings.Join(bad, "; "), p.fnPos(f))
+	default:
+		c.ok("C04.sample", construct, fmt.Sprintf("%d (element, nonce) pairs", n), p.fnPos(f))
 	}
 }
